@@ -277,4 +277,57 @@ theorem routeOfPath_block (me : Nat) (nodes : List (Nat × NodeInfo)) (c : Cidr)
   · rfl
   · simp [pathCross, Bool.and_assoc]
 
+/-- the accumulator after a LOCAL block's own entry. -/
+theorem last_block_local (me : Nat) (c : Cidr) (A : Acc) (ri : RouteInfo)
+    (hb : ri.block = some me) (hh : ri.hosts = []) (hr : ri.refs = []) :
+    let B := accStep me c A (c, ri)
+    B.blockSeen = true ∧ B.blockMatches = true ∧
+    B.blockTypes = (A.blockTypes ||| tLocalWorkload) ∧ B.types = A.types ∧ B.hasHostRef = A.hasHostRef ∧
+    B.hasTunnelRef = A.hasTunnelRef ∧ B.localWorkload = A.localWorkload := by
+  rw [accStep_plain me c A (c, ri) hh hr]
+  have h1 := accPool_fields A ri
+  unfold accBlock
+  simp only [hb, beq_self_eq_true, if_true]
+  have hl : (accPool A ri).localWorkload = A.localWorkload := by
+    unfold accPool; cases ri.pool <;> simp
+  split <;> simp_all
+
+theorem BT_or_four (x : Nat) (h : BT x) : (0 ||| (x ||| tLocalWorkload)) = 4 ∨ (0 ||| (x ||| tLocalWorkload)) = 5 := by
+  rcases h with h | h | h | h <;> subst h <;> simp [tLocalWorkload]
+
+/-- the RouteUpdate the resolver computes for a block owned by the LOCAL node (no host and no ref at
+the block's CIDR or above it): a LOCAL_WORKLOAD route that is not flagged as a live workload. -/
+theorem routeOfPath_local_block (me : Nat) (nodes : List (Nat × NodeInfo)) (c : Cidr)
+    (pre : List (Cidr × RouteInfo)) (ri : RouteInfo)
+    (hpre : PlainAncestors pre) (hb : ri.block = some me) (hh : ri.hosts = []) (hr : ri.refs = []) :
+    let r := routeOfPath me nodes c (pre ++ [(c, ri)])
+    r.dst = c ∧ (r.types = 4 ∨ r.types = 5) ∧ r.localWorkload = false := by
+  have hf := fold_plain me c pre hpre {}
+  simp only at hf
+  obtain ⟨f1, f2, f3, f4, f5⟩ := hf
+  have hl := last_block_local me c (pre.foldl (accStep me c) {}) ri hb hh hr
+  simp only at hl
+  obtain ⟨l2, l3, l4, l5, l6, l7, l9⟩ := hl
+  have hlw : (List.foldl (accStep me c) ({} : Acc) pre).localWorkload = false := by
+    clear f1 f2 f3 f4 f5 l2 l3 l4 l5 l6 l7 l9
+    suffices ∀ a : Acc, a.localWorkload = false → (List.foldl (accStep me c) a pre).localWorkload = false from this {} rfl
+    induction pre with
+    | nil => intro a h; exact h
+    | cons e pre ih =>
+      intro a ha
+      have he := hpre e (List.mem_cons_self)
+      simp only [List.foldl_cons]
+      apply ih (fun x hx => hpre x (List.mem_cons_of_mem _ hx))
+      rw [accStep_plain me c a e he.1 he.2]
+      unfold accBlock accPool
+      cases e.2.pool <;> cases e.2.block <;> simp [ha] <;> split <;> simp [ha]
+  have hbt : BT (List.foldl (accStep me c) ({} : Acc) pre).blockTypes := f5 (Or.inl rfl)
+  unfold routeOfPath
+  simp only [List.foldl_append, List.foldl_cons, List.foldl_nil]
+  simp only [l2, l3, l4, l5, l6, l7, l9, f2, f3, f4, hlw]
+  refine ⟨trivial, ?_, ?_⟩
+  · have := BT_or_four _ hbt
+    simpa using this
+  · trivial
+
 end CalicoVerif.C43
